@@ -22,6 +22,7 @@ except a handler call is accepted.
 """
 import itertools
 import random
+import re
 
 from spec import route_spec as S
 from bounded.cases import _router_common as C
@@ -33,7 +34,11 @@ BOUND = ('ordered rule lists (registration order matters for the tree): every ru
          '(17 segment forms: literals a/ab/b, :x, anonymous, int, anonymous int, float, re([ab]+), re(a*), path, a<x>, a<x>b, '
          '<x>b, <n:int><x>, a<n>-<m>, <p:path>b; <=3 segments; the 3-segment ones in quick with one flavour and fewer '
          'paths) and of the 68-rule hand pool as a singleton in each of the 3 syntax flavours; every ordered pair of the '
-         'pool (quick: of a 40-rule core); every ordered 3-subset (thorough: 4-subset) and some full orders of 9 '
+         'pool (quick: of a 40-rule core); unusual wildcard NAMES (19 names that start with anon / anon_ / _ or end in '
+         'digits, e.g. anon_id, anon_0, anon, _, _0, Anon_x) in 20 rule shapes (plain, in-segment, int, float, re, '
+         'path, two such names, next to anonymous wildcards) as singletons in each flavour, and 6 rule lists with '
+         'such names (shared prefixes, literal-vs-wildcard, several rules on one pattern) in their orders of '
+         'registration; every ordered 3-subset (thorough: 4-subset) and some full orders of 9 '
          'prefix-sharing families of 8 rules (literal splits, literal-vs-wildcard backtracking, in-segment wildcards, int, '
          'float, re, empty-matching re, path, several rules on one pattern with different names/methods); 2500 '
          '(thorough 60000) seeded random lists of 2..4 (thorough 2..6) rules; x request paths: all strings of length '
@@ -114,6 +119,84 @@ def deep_lists():
     ]
 
 
+# ----------------------------------------------------------------------------- unusual wildcard names
+# "The handler is called with exactly the named wildcards of the rule it was registered under": EVERY name the rule
+# spells is a named wildcard, also one that looks like a name a router might use internally for anonymous wildcards
+# ('anon...', '_...', trailing digits).  The spec module's generator guard (S.valid_rule) keeps such names out of the
+# shared pools, so these rules are built here and rendered through placeholders (the matching oracle S.match / S.select
+# never looks at the spelling of a name).
+ODD_NAMES = ('anon', 'anon_', 'anon_id', 'anon0', 'anon_0', 'anon_1', 'anon_x', 'anon__x', 'anonymous', 'anon_anon',
+             'Anon_x', 'ANON_0', '_', '_x', '__', '_0', '_anon_0', 'x_anon_', 'anon1x')
+
+
+def _alias(rule):
+    """The same rule with every wildcard name replaced by a placeholder the spec renderer accepts."""
+    out, back = [], {}
+    for seg in rule:
+        if S.is_lit(seg) or seg[1] is None:
+            out.append(seg)
+        else:
+            ph = 'Zq%dqZ' % len(back)
+            back[ph] = seg[1]
+            out.append([seg[0], ph] + list(seg[2:]))
+    return out, back
+
+
+def render(rule, flavour):
+    """S.render, also for wildcard names the spec generator guard refuses (names starting with 'anon')."""
+    if not any(not S.is_lit(seg) and seg[1] is not None and seg[1].startswith('anon') for seg in rule):
+        return S.render(rule, flavour)
+    aliased, back = _alias(rule)
+    text = S.render(aliased, flavour)
+    assert not any(ph in lit for ph in back for lit in S.literals(rule))
+    for ph, name in back.items():
+        assert text.count(ph) == 1, (text, ph)
+        text = text.replace(ph, name)
+    return text
+
+
+def _odd_ok(rule):
+    names = [seg[1] for seg in rule if not S.is_lit(seg) and seg[1] is not None]
+    return (S.valid_rule(_alias(rule)[0]) and len(set(names)) == len(names)
+            and all(re.fullmatch(r'[a-zA-Z_][a-zA-Z0-9_]*', nm) for nm in names))
+
+
+def odd_name_rules(name, other):
+    """Rule shapes (every flavour can spell the name in each of them) around the wildcard name `name`;
+    `other` is a second unusual name for the two-wildcard shapes."""
+    N = lambda filt=None, arg=None: W(name, filt, arg)      # noqa: E731
+    O = lambda filt=None, arg=None: W(other, filt, arg)     # noqa: E731
+    L = S.Lit
+    rules = [
+        [L('/'), N()], [L('/a/'), N()], [L('/a/'), N(), L('/b')], [L('/'), N(), L('/'), W('y')],
+        [L('/'), W('x'), L('/'), N()], [L('/'), N(), L('/'), O()], [L('/a'), N()], [L('/a'), N(), L('b')],
+        [L('/a/'), N('int')], [L('/a'), N('int'), L('b')], [L('/'), N('int'), L('-'), O('int')],
+        [L('/'), N('float')], [L('/a/'), N('re', '[ab]+')], [L('/'), N('re', 'a*'), L('b')],
+        [L('/a/'), N('path')], [L('/'), N('path'), L('/b')],
+        # anonymous and unusually named wildcards in one rule: only the anonymous ones are dropped
+        [L('/a/'), W(None, 'int'), L('/'), N()], [L('/'), N('int'), L('/'), W(None, 'int')],
+        [L('/'), N(), L('/'), W(None)], [L('/'), W(None, 're', '[ab]+'), L('-'), N('int'), L('/'), O()],
+    ]
+    assert all(_odd_ok(r) for r in rules), name
+    return rules
+
+
+def odd_name_lists():
+    """Rule lists (prefix sharing, literal-vs-wildcard, several rules on one pattern) with unusual names."""
+    L = S.Lit
+    a_id, a0, a1, us = W('anon_id', 'int'), W('anon_0'), W('anon_1'), W('_')
+    lists = [
+        [[L('/a/'), a_id], [L('/a/'), a_id, L('/b')], [L('/a/1')]],
+        [[L('/a/b')], [L('/a/'), a0], [L('/'), a0, L('/b')], [L('/'), a0, L('/'), a1]],
+        [[L('/a/'), W(None, 'int'), L('/'), a0], [L('/a/'), W('anon_0', 'int')], [L('/a/'), W(None, 'int'), L('/b')]],
+        [[L('/a/'), a0], [L('/a/'), W('x')], [L('/a/'), W(None)], [L('/a/'), us]],
+        [[L('/a/'), W('x')], [L('/a/'), a0], [L('/a/'), us, L('/b')], [L('/b/'), W('anon', 'path'), L('/a')]],
+        [[L('/'), W('anon', 'int'), L('-'), W('anon_', 'int')], [L('/'), W('anon0', 'int')], [L('/1-1')]],
+    ]
+    assert all(_odd_ok(r) for lst in lists for r in lst)
+    return lists
+
+
 # ----------------------------------------------------------------------------- case generation
 def _methods_for(rules, rnd=None):
     """One method per rule: GET unless an earlier rule has the same pattern (then the next free verb)."""
@@ -160,6 +243,28 @@ def gen_cases(tier, seed):
                 continue
             k += 1
             yield _case([rule], [S.FLAVOURS[k % 3]], [['guided', k, 40], ['all', 2, 0, 1]], app=1 if k % 8 == 0 else 0)
+
+    # A3. unusual wildcard names ('anon...', '_...'): every name x 20 rule shapes x every flavour as a singleton,
+    #     and 6 rule lists in every order of registration
+    for i, name in enumerate(ODD_NAMES):
+        other = ODD_NAMES[(i + 5) % len(ODD_NAMES)]
+        for rule in odd_name_rules(name, other):
+            seen_text = set()
+            for fl in S.FLAVOURS:
+                text = render(rule, fl)
+                if text in seen_text:
+                    continue
+                seen_text.add(text)
+                k += 1
+                yield _case([rule], [fl], [['guided', k, 30], ['all', 2 if quick else 3, 0, 1]], app=1)
+    for lst in odd_name_lists():
+        for j, order in enumerate(itertools.permutations(range(len(lst)))):
+            if quick and len(lst) > 3 and j % 4:
+                continue
+            k += 1
+            rules = [lst[i] for i in order]
+            fls = [fl_cycle[(k + i) % 3] for i in range(len(rules))]
+            yield _case(rules, fls, [['guided', k, 25], ['all', 3, 0, 1]], app=1 if k % 2 == 0 else 0)
 
     # B. ordered pairs of the pool
     core = pool if not quick else [r for i, r in enumerate(pool) if i % 5 != 4][:40]
@@ -382,7 +487,7 @@ def run_case(case):
     reg = []                      # indices (into case['rules']) of the rules the router holds
     hooked = False
     for idx, (segs, fl, meth) in enumerate(rules):
-        text = S.render(segs, fl)
+        text = render(segs, fl)
         try:
             app.route(text, method=meth, callback=C.make_handler(idx, log))
         except Exception as e:  # noqa
@@ -390,7 +495,7 @@ def run_case(case):
                             or (S.same_route(segs, rules[j][0]) and rules[j][2] == meth) for j in reg)
             if tolerated:
                 continue
-            return fail('K0.register', rule=text, method=meth, registered=[S.render(rules[j][0], rules[j][1]) for j in reg],
+            return fail('K0.register', rule=text, method=meth, registered=[render(rules[j][0], rules[j][1]) for j in reg],
                         error='%s: %s' % (type(e).__name__, str(e)[:200]))
         reg.append(idx)
         if not hooked and any(not S.is_lit(sg) for sg in segs):
@@ -399,7 +504,7 @@ def run_case(case):
             hooked = True
             renamed = [sg if S.is_lit(sg) else [sg[0], (None if sg[1] is None else 'hk' + str(sg[1]))] + list(sg[2:]) for sg in segs]
             try:
-                app.on_route(S.render(renamed, fl), lambda p: None)
+                app.on_route(render(renamed, fl), lambda p: None)
             except Exception:  # noqa - a refused hook changes nothing
                 pass
         # lookups interleaved with registration: whatever a lookup leaves behind (e.g. a cache) must not change later answers
@@ -439,9 +544,9 @@ def run_case(case):
     victim = reg[len(reg) // 2]
     vsegs, vfl, _vm = rules[victim]
     try:
-        app.remove_route(S.render(vsegs, vfl))
+        app.remove_route(render(vsegs, vfl))
     except Exception as e:  # noqa
-        return fail('K3.remove_raised', rule=S.render(vsegs, vfl), error='%s: %s' % (type(e).__name__, str(e)[:200]))
+        return fail('K3.remove_raised', rule=render(vsegs, vfl), error='%s: %s' % (type(e).__name__, str(e)[:200]))
     reg2 = [i for i in reg if not S.same_route(rules[i][0], vsegs)]
     regs2 = [rules[i][0] for i in reg2]
     methods2 = [rules[i][2] for i in reg2]
@@ -453,7 +558,7 @@ def run_case(case):
             obs = C.observe_resolve(router, path, verb)
             failure = _compare('K3', obs, acc, regs2, reg2, methods2, path, verb)
             if failure is not None and not (failure.get('clause') == 'K3.kwargs' and failure.get('names_of_rule') is not None):
-                failure['removed'] = S.render(vsegs, vfl)
+                failure['removed'] = render(vsegs, vfl)
                 return failure
     return None
 
